@@ -218,6 +218,7 @@ def run_case(ctx, i, rng):
       if has_aux:
         ctx.check(close(out['aux'], aux_r), 'vjp:aux', lambda: dict(case=desc))
       _check_published_once(ctx, desc, V, upd, inner)
+      _check_float_updates(ctx, desc, host, V, (primals, ct), inner, d, n_primals, primals)
       # the lifted vjp is a JAX function of (variables, inputs) like jax.vjp of apply: differentiate the WHOLE program (primal
       # + input cotangents) w.r.t. every float collection of the sub-module, selected or not, and compare with the reference
       if not has_aux and i % 2 == 0:
@@ -256,6 +257,7 @@ def run_case(ctx, i, rng):
       if has_aux:
         ctx.check(close(out['aux'], aux_r), 'grad:aux', lambda: dict(case=desc))
       _check_published_once(ctx, desc, V, upd, inner)
+      _check_float_updates(ctx, desc, host, V, (primals, None), inner, d, n_primals, primals)
     elif kind == 'jvp':
       primals_t = jax.tree_util.tree_map(lambda a: jnp.asarray(nr.normal(size=np.shape(a)).astype(np.float32)), primals)
       vars_t_core = {c: jax.tree_util.tree_map(lambda a: jnp.asarray(nr.normal(size=np.shape(a)).astype(np.float32)), sub[c]) for c in ('params', 'batch_stats')}
@@ -267,6 +269,7 @@ def run_case(ctx, i, rng):
       ctx.check(close(out['y'], y_r), 'jvp:primal', lambda: dict(case=desc))
       ctx.check(close(out['y_t'], yt_r), 'jvp:tangent', lambda: dict(case=desc))
       _check_published_once(ctx, desc, V, upd, inner)
+      _check_float_updates(ctx, desc, host, V, (primals, (primals_t, vars_t_core)), inner, d, n_primals, primals)
 
 
 def run_noisy(ctx, i, rng):
@@ -385,6 +388,28 @@ def run_noisy_custom_vjp(ctx, i, rng):
       want = want_sq if name == 'value_and_grad_of_jit' else y_plain
       ctx.check(close(got, want), 'custom_vjp:forward_value_changes_under_differentiation:' + name,
                 lambda: dict(case=desc, got=np.asarray(got).ravel()[:6].tolist(), want=np.asarray(want).ravel()[:6].tolist()))
+
+
+def _check_float_updates(ctx, desc, host, V, call_args, inner, d, n_primals, primals):
+  """A FLOAT collection that the forward pass writes (the running statistic) and that may at the same time be differentiated
+  (vjp_variables / variable_tangents): with the collection mutable, the lifted call publishes exactly the update the un-lifted
+  function makes - once, computed from the old value."""
+  import jax
+  from flax.core import unfreeze
+  H = host_classes()
+  ref = H['Host']('plain_fn:0:0', inner, d, n_primals)
+  _, want = ref.apply(V, primals, None, mutable=['state', 'batch_stats'])
+  try:
+    _, got = host.apply(V, *call_args, mutable=['state', 'batch_stats'])
+  except Exception as e:  # noqa: BLE001
+    ctx.check(False, 'published_once:float_collection:raises', dict(case=desc, error=repr(e)[:300]))
+    return
+  g, w = unfreeze(got).get('batch_stats', {}), unfreeze(want).get('batch_stats', {})
+  same = jax.tree_util.tree_structure(g) == jax.tree_util.tree_structure(w) and all(
+      np.allclose(a, b, **TOL) for a, b in zip(jax.tree_util.tree_leaves(g), jax.tree_util.tree_leaves(w)))
+  stale = jax.tree_util.tree_structure(g) == jax.tree_util.tree_structure(V['batch_stats']) and all(
+      np.array_equal(a, b) for a, b in zip(jax.tree_util.tree_leaves(g), jax.tree_util.tree_leaves(V['batch_stats'])))
+  ctx.check(same, 'published_once:float_collection' + (':update_dropped' if stale else ''), lambda: dict(case=desc, diff_cols=desc.get('diff_cols')))
 
 
 def _check_published_once(ctx, desc, V, upd, inner):
